@@ -157,7 +157,8 @@ def run(chk, units=None, jobs=None):
                        "exc": exc, "family": j["fam"].split("-")[0] + ("-" + j["fam"].split("-", 1)[1] if j["fam"].startswith(("smt", "string", "free", "mexpr", "pred")) else "")}
                 u1 = it.get("u1") or ""
                 sig["feature"] = ("str.<" if "(str.< " in u1 else "ite" if "(if " in u1 else
-                                  "not-inside-s-expression" if re.search(r"\((?:and|or|xor|=>|=|ite) [^\n]*\(not ", u1) else "")
+                                  "not-inside-s-expression" if re.search(r"\((?:and|or|xor|=>|=|ite) [^\n]*\(not ", u1) else
+                                  "negated-smt-connective" if re.search(r"\(not \((?:and|or) ", u1) else "")
                 chk.mismatch(sig, {"unit": j["unit"], "family": j["fam"], "source": j["src"], "unparsed": it.get("u1"), "unparsed_again": it.get("u2"),
                                    "exc": it["exc"], "job": j})
         if n != sum(len(c) for _, c in judge_jobs):
